@@ -416,11 +416,26 @@ def cliValidatesPinned (strict : Bool) (fix : Option Nat) : Bool :=
 def infoCmd (strict : Bool) (fix : Option Nat) (d : Dir) : Dir × Except InfoErr Acc :=
   infoRun (cliValidates strict fix) fix d
 
+/-- `int(math.log10(max(m, 1))) + 1`: the number of decimal digits of the largest class index. -/
+def digits (m : Int) : Nat := (toString (max m 1).toNat).length
+
+/-- `f"{pre}{i:0{w}d}"`: the class index left-padded with zeros to width `w`. -/
+def padKey (pre : String) (w i : Nat) : String :=
+  pre ++ String.ofList (List.replicate (w - (toString i).length) '0') ++ toString i
+
 def classKeys (pre1 pre2 : String) (m : Int) (f g : Int → Int) : List (String × Int) :=
   (List.range (m + 1).toNat).flatMap fun (i : Nat) =>
-    [(pre1 ++ toString i, f (i : Int)), (pre2 ++ toString i, g (i : Int))]
+    [(padKey pre1 (digits m) i, f (i : Int)), (padKey pre2 (digits m) i, g (i : Int))]
 
-/-- The key/value pairs written out (class indices without the zero padding). -/
+/-- `sorted(info_dict.items())`: insertion sort of the lines by key (code-point order). -/
+def insertLine (x : String × Int) : List (String × Int) → List (String × Int)
+  | [] => [x]
+  | y :: ys => if x.1 < y.1 then x :: y :: ys else y :: insertLine x ys
+
+def sortLines (l : List (String × Int)) : List (String × Int) := l.foldr insertLine []
+
+/-- The key/value pairs written out (class indices zero-padded), in `info_dict` order; the file
+holds `sortLines` of them. -/
 def report (numUtts : Nat) (a : Acc) : List (String × Int) :=
   [("num_utterances", (numUtts : Int)), ("total_frames", (a.totalFrames : Int)),
    ("max_ali_class", a.maxAli), ("max_ref_class", a.maxRef),
@@ -495,5 +510,72 @@ def stripOpt {α} (key : α → Int) (sos eos : Option Int) (l : List α) : List
 def writeHyp (sos eos : Option Int) : Seq → Seq
   | .s1 t => .s1 (stripOpt id sos eos t)
   | .s2 rows => .s2 (stripOpt (·.tok) sos eos rows)
+
+/-! ## Utterance discovery: `_utts_in_dir`, `SpectDataSet.__init__` (`has_ali`, `has_ref`),
+`SpectDataSet.find_utt_ids`, `utt_ids = tuple(sorted(...))`
+
+A file name is the list of its code points (python compares `str` by code point). A python `set`
+is a list here; the final `sorted` also removes the duplicates a list may hold. -/
+
+abbrev FName := List Nat
+
+/-- `x.startswith(file_prefix) and x.endswith(file_suffix)`. -/
+def nameMatches (pre suf x : FName) : Bool := pre.isPrefixOf x && suf.isSuffixOf x
+
+/-- `x[fpl:neg_fsl]` (`neg_fsl = None` for an empty suffix): the slice from `len(prefix)` to
+`len(x) - len(suffix)`, empty when the two overlap. -/
+def stripName (pre suf x : FName) : FName :=
+  (x.drop pre.length).take (x.length - suf.length - pre.length)
+
+/-- `_utts_in_dir(dir_, file_prefix, file_suffix)` on the listing of the directory. -/
+def uttsInDir (pre suf : FName) (files : List FName) : List FName :=
+  (files.filter (nameMatches pre suf)).map (stripName pre suf)
+
+/-- What `os.listdir` returns for the three sub-directories; `none` = the sub-directory is not
+looked at (it does not exist, its name was given as `None`, or — `ali/` only — `suppress_alis`). -/
+structure Listing where
+  feat : List FName
+  ali : Option (List FName)
+  ref : Option (List FName)
+
+/-- `has_ali` / `has_ref`: the directory exists and holds at least one matching file
+(independently of `subset_ids`). -/
+def dirInUse (pre suf : FName) : Option (List FName) → Bool
+  | none => false
+  | some files => files.any (nameMatches pre suf)
+
+/-- `if subset_ids: utt_ids &= subset_ids` — an empty subset restricts nothing. -/
+def restrict (subset ids : List FName) : List FName :=
+  if subset.isEmpty then ids else ids.filter (subset.contains ·)
+
+/-- `SpectDataSet.find_utt_ids` (the warnings aside). -/
+def findUttIds (pre suf : FName) (subset : List FName) (l : Listing) : List FName :=
+  let ids := restrict subset (uttsInDir pre suf l.feat)
+  let ids :=
+    if dirInUse pre suf l.ali then
+      ids.filter ((restrict subset (uttsInDir pre suf (l.ali.getD []))).contains ·)
+    else ids
+  if dirInUse pre suf l.ref then
+    ids.filter ((restrict subset (uttsInDir pre suf (l.ref.getD []))).contains ·)
+  else ids
+
+/-- Insertion into a strictly increasing list (a value already there is not inserted again). -/
+def insertName (x : FName) : List FName → List FName
+  | [] => [x]
+  | y :: ys => if x < y then x :: y :: ys else if x = y then y :: ys else y :: insertName x ys
+
+/-- `sorted(set(...))`. -/
+def sortNames (l : List FName) : List FName := l.foldr insertName []
+
+/-- `data_set.utt_ids`. -/
+def discover (pre suf : FName) (subset : List FName) (l : Listing) : List FName :=
+  sortNames (findUttIds pre suf subset l)
+
+/-- `LangDataSet.utt_ids`: one directory, no companions. -/
+def discoverLang (pre suf : FName) (subset : List FName) (files : List FName) : List FName :=
+  sortNames (restrict subset (uttsInDir pre suf files))
+
+/-- `file_prefix + utt_id + file_suffix`: the file every reader and writer of the data set uses. -/
+def fileOf (pre suf id : FName) : FName := pre ++ id ++ suf
 
 end PdtVerif.DataDir
